@@ -9,7 +9,9 @@ def gen_program(rng, arch, nstmt, vocab, incbin):
     """returns (text, expected_bytes, expected_labels) computed by an independent byte counter"""
     lines, out, labels = [], bytearray(), {}
     here, code, nlab = 0, True, 0
+    peak = 0
     for _ in range(nstmt):
+        peak = max(peak, here)
         r = rng.random()
         if r < 0.16:
             nlab += 1
@@ -76,6 +78,7 @@ def gen_program(rng, arch, nstmt, vocab, incbin):
             lines.append("; just a comment")
     nlab += 1
     lines.append("endlab:"); labels["endlab"] = here
+    gen_program.peak = peak
     return "\n".join(lines) + "\n", bytes(out), labels
 
 def run(ck):
@@ -97,29 +100,47 @@ def run(ck):
         for _ in range(10000 if thorough else 1000):
             t, out, labs = gen_program(rng, arch, rng.randrange(3, 40), vocab, incbin)
             progs.append((arch, t)); expect.append((out, labs))
-    impl, mod, icases = asmk.run_both(harness, model, progs, syms=True, incbin=incbin)
-    ck.evaluations += len(progs)
-    for (arch, t), (out, labs), a, c in zip(progs, expect, impl, icases):
-        if len(labs) >= 2 and len(out) >= 3:
-            ck.nontriv(arch + t)
-        ck.count("%s:%s" % (arch, a.kind))
-        if len(ck.samples) < 3 and len(out) > 20:
-            ck.sample({"arch": arch, "source": t, "bytes": out.hex(), "labels": labs})
-        bad = None
-        if not a.ok:
-            bad = "rejected (%s)" % (a.msg or a.kind)
-        elif a.bytes != out:
-            bad = "output %s, placed bytes are %s" % (a.bytes.hex(), out.hex())
-        else:
-            for n, v in labs.items():
-                if a.syms.get(n) != v:
-                    bad = "label %s = %s, expected origin + bytes placed = %s" % (n, a.syms.get(n), v)
+    def batch(progs, expect, incbin):
+        impl, mod, icases = asmk.run_both(harness, model, progs, syms=True, incbin=incbin)
+        ck.evaluations += len(progs)
+        for (arch, t), (out, labs), a, c in zip(progs, expect, impl, icases):
+            if len(labs) >= 2 and len(out) >= 3:
+                ck.nontriv(arch + t)
+            ck.count("%s:%s" % (arch, a.kind))
+            if len(ck.samples) < 3 and len(out) > 20:
+                ck.sample({"arch": arch, "source": t, "bytes": out.hex(), "labels": labs})
+            bad = None
+            if not a.ok:
+                bad = "rejected (%s)" % (a.msg or a.kind)
+            elif a.bytes != out:
+                bad = "output %s, placed bytes are %s" % (a.bytes.hex(), out.hex())
+            else:
+                for n, v in labs.items():
+                    if a.syms.get(n) != v:
+                        bad = "label %s = %s, expected origin + bytes placed = %s" % (n, a.syms.get(n), v)
+                        break
+            if bad:
+                ck.violation("%s program %r: %s" % (arch, t[:400], bad),
+                             {"mode": "asm", "arch": arch, "source": t, "harness_case": c,
+                              "expected": "OK " + out.hex() + " labels " + str(labs)})
+                if len(ck.violations) >= 3:
                     break
-        if bad:
-            ck.violation("%s program %r: %s" % (arch, t[:400], bad),
-                         {"mode": "asm", "arch": arch, "source": t, "harness_case": c,
-                          "expected": "OK " + out.hex() + " labels " + str(labs)})
-            if len(ck.violations) >= 3:
-                break
-    asmk.k_check(ck, progs, impl, mod, icases, syms=True)
+
+        asmk.k_check(ck, progs, impl, mod, icases, syms=True)
+    batch(progs, expect, incbin)
+    # files larger than any read buffer (4096 / 8192 byte boundaries), in a smaller batch
+    big = {"b1.bin": bytes(range(1, 6)), "k4.bin": bytes(i % 251 for i in range(4096)), "k4p.bin": bytes(i % 241 for i in range(4097)),
+           "k12.bin": bytes(i % 239 for i in range(12289)), "k8.bin": bytes(i % 233 for i in range(8192))}
+    progs2, expect2 = [], []
+    for arch in asmk.ARCHES:
+        vocab = [(f, b) for f, b in asmk.census(arch)
+                 if not f.split()[0] in ("jr", "djnz", "bcc", "bcs", "beq", "bmi", "bne", "bpl", "bvc", "bvs")]
+        n = 0
+        while n < (60 if thorough else 12):
+            t, out, labs = gen_program(rng, arch, rng.randrange(4, 14), vocab, big)
+            if gen_program.peak > 0xF000 or labs["endlab"] > 0xF000 or not any(k in t for k in ("k4", "k8", "k12")):
+                continue
+            n += 1
+            progs2.append((arch, t)); expect2.append((out, labs))
+    batch(progs2, expect2, big)
     return ck
